@@ -51,7 +51,7 @@ def floors(tier):
             "end=close": 300, "end=timeout": 300, "end=oserror": 300, "end=reset": 300, "end=aborted": 300, "all-compositions": 1000,
             "bufsize=1": 100, "bufsize=4096": 100, "session>64KiB": 12, "quiet-period": 200,
             "reader-sole-owner-of-socket": 300, "quiet-period:non-blocking-socket": 50,
-            "delivery-ends-at-frame-end": 100, "duplex": 300, "sock=tls-like": 30, "sock=datagram": 30, "writes-fail": 100, "blocking": 100}
+            "delivery-ends-at-frame-end": 100, "closed-by-application": 50, "duplex": 300, "sock=tls-like": 30, "sock=datagram": 30, "writes-fail": 100, "blocking": 100}
 
 
 def plan(tier, seed):
@@ -277,15 +277,20 @@ def check_one(case) -> core.Out:
             try:
                 with S.deadline():
                     rd = S.mk_reader(sock, dict(opts, bufsize=case["bufsize"]))
-                    got, idle = [], 0
+                    got, idle, closed_at = [], 0, []
                     for _ in range(4 * len(data) + 50):
                         raw, parsed = rd.read()
                         if raw is None and parsed is None:
                             idle += 1
-                            if blocking or idle > len(case["pauses"]) + 1:
+                            if blocking or closed_at or idle > len(case["pauses"]) + 1:
                                 break  # (a blocking socket only reports the end once)
                             continue
                         got.append((raw, parsed))
+                        if case.get("peek"):
+                            len(rd.datastream.buffer)  # the application looks at what is buffered
+                        if case.get("close_after") and len(got) == case["close_after"] and not closed_at:
+                            closed_at = [sock._pos]
+                            sock.close()  # the application closes its own socket and drains the reader
                         if case["every"] and len(got) % case["every"] == 0:
                             try:
                                 rd.datastream.write(b"\xb5\x62\x0a\x04\x00\x00\x0e\x34")
@@ -300,12 +305,16 @@ def check_one(case) -> core.Out:
             out.nontrivial = True
             out.sample = {"data": data[:32], "socket": sockkind, "blocking": blocking, "writes fail": bool(wfail),
                           "written": len(sock.sent), "pauses": case["pauses"][:4]}
+            if closed_at:
+                # what had been received when the application closed its socket is still delivered
+                out.classes.append("closed-by-application")
+                want, _e = S.read_all(io.BytesIO(data[:closed_at[0]]), opts, limit=4 * len(data) + 50)
             if not S.same_items(got, want):
                 out.viol.append((f"{PROP}|duplex|{sockkind}|items-differ",
                                  f"{len(got)} items via a {sockkind} socket ({'blocking' if blocking else 'with timeout'}, "
                                  f"{len(sock.sent)} writes{' that failed' if wfail else ''}) vs {len(want)} via file; "
                                  f"data {data[:40].hex()}"))
-            elif tmo != (None if blocking else 0.25):
+            elif tmo != (None if blocking else 0.25) and not closed_at:
                 out.viol.append((f"{PROP}|duplex|timeout-changed", f"the socket's timeout is {tmo!r} after the session"))
             return out
         if k == "real":
@@ -506,7 +515,8 @@ def run_shard(spec, ctx, acc):
                     "pauses": sorted(set(draw(st.lists(st.sampled_from(ends[:-1] or [0]), max_size=3)))),
                     "sock": draw(st.sampled_from(["plain", "plain", "tls-like", "datagram"])),
                     "blocking": draw(st.booleans()), "write_fails": draw(st.sampled_from([0, 0, 1, 2])),
-                    "every": draw(st.sampled_from([0, 1, 2, 3]))}
+                    "every": draw(st.sampled_from([0, 1, 2, 3])), "peek": draw(st.booleans()),
+                    "close_after": draw(st.sampled_from([0, 0, 0, 1, 2]))}
 
         core.hyp_search(acc, dx(), check, seed=core.derive(ctx["seed"], PROP, "dx", spec["part"]),
                         max_examples=200 if quick else 4000, known=known, rounds=3)
